@@ -24,7 +24,7 @@
 From CB Require Import ProofLib Spec Chain Programs Flow FlowLists Wire2 FlowGeneric.
 From CB Require Import Flow_relay Flow_drop Flow_take Flow_ends.
 From CB Require Inv_from_iter.
-From CB Require Import Liveness.
+From CB Require Import LivenessG.
 
 Set Implicit Arguments.
 
@@ -573,16 +573,11 @@ Module PullProgramsSanity.
     option_map (fun n => (pin (ntrace n), dout (ntrace n))) (nth_error (nodes pp_N) 0) = Some (4, 4).
   Proof. vm_compute. repeat split. Qed.
 
-  (** so the theorems apply to this run, and their hypotheses are satisfiable *)
+  (** so the theorems apply to this run: their hypotheses are satisfiable ([preach], at rest, the
+      top sink live - see [pp_at_rest]), and the conclusion pin = dout = 2 is what [pp_at_rest] computes *)
   Example pp_preach : preach pp_it pp_stages pp_N.
-  Proof. apply preach_run; [apply preach0 | exact pp_enabled]. Qed.
-
-  Example pp_answers :
-    forall n, nth_error (nodes pp_N) (top pp_stages) = Some n -> sk (nms n) 0 = SLive ->
-      pin (ntrace n) = dout (ntrace n).
   Proof.
-    destruct pp_at_rest as (H1 & H2 & _).
-    exact (@program_answers pp_it pp_stages ltac:(repeat constructor) pp_N pp_preach H1 H2).
+    exact (@preach_run pp_it pp_stages (NQ pp_it pp_stages) pp_script (preach0 pp_it pp_stages) pp_enabled).
   Qed.
 
   (** [disciplined] is needed for [program_answers]: a sink that sends TWO Pulls from inside one
